@@ -74,7 +74,7 @@
 //     parentheses).
 //   * the inherited postcondition of a trait-method impl (PartialEq::eq: `obeys_eq_spec() ==> r == self.eq_spec(other)`) is
 //     reported by Verus at vstd's std_specs/cmp.rs:21; the runner maps that to line 21 of the assembled file and labels it
-//     `ids_attrs::?::post` (lemma level).  The clause is therefore spelled out as an own `ensures` of `eq` (ids_attrs::eq::post).
+//     `ids_attrs::?::post` (lemma level).  The clause is therefore spelled out as an own `ensures` of `eq` (ids_attrs::attrs_eq::post).
 //   * a lost structural anchor of a proof hint is dropped silently by the lenient splicer (I first wrote `stmt:expr
 //     ContentAttributes` for a tail expression that is classified `stmt:call ContentAttributes`).
 //
@@ -85,7 +85,7 @@ use vstd::prelude::*;
 
 verus! {
 
-/*@rules R1 R10 SUB(from=self.0.iter().all(|a| other.0.contains(a));;to=vx_iter_all(&self.0, |a| other.0.contains(a))) @*/
+/*@rules R1 SUB(from=self.0.iter().all(|a| other.0.contains(a));;to=vx_iter_all(&self.0, |a| other.0.contains(a))) @*/
 
 pub mod vx_base {
     use vstd::prelude::*;
@@ -569,7 +569,7 @@ pub mod vx_attrs {
     }
 
     impl<A: PartialEq> PartialEq for ContentAttributes<A> {
-        /*@extract yrs/src/id_map.rs | impl<A: PartialEq> PartialEq for ContentAttributes<A> | fn eq
+        /*@extract yrs/src/id_map.rs | impl<A: PartialEq> PartialEq for ContentAttributes<A> | fn eq | label=attrs_eq
         @ret r
         @sig
             // the inherited contract of PartialEq::eq is `obeys_eq_spec() ==> r == self.eq_spec(other)`; spelled out:
@@ -582,7 +582,7 @@ pub mod vx_attrs {
 
     // (the real impl block is `impl<A> ContentAttributes<A>`; `A: PartialEq` is needed to state wf)
     impl<A: PartialEq> ContentAttributes<A> {
-        /*@extract yrs/src/id_map.rs | impl<A> ContentAttributes<A> | fn new
+        /*@extract yrs/src/id_map.rs | impl<A> ContentAttributes<A> | fn new | label=attrs_new
         @ret r
         @sig
             ensures
@@ -609,7 +609,7 @@ pub mod vx_attrs {
             choose|r: Self| r@ == merge_seq(self@, other@)
         }
 
-        /*@extract yrs/src/id_map.rs | impl<A: PartialEq + Eq + Hash + Clone> Merge for ContentAttributes<A> | fn merge | rules=SUB(from=in &other.0;;to=in other.0.iter())
+        /*@extract yrs/src/id_map.rs | impl<A: PartialEq + Eq + Hash + Clone> Merge for ContentAttributes<A> | fn merge | label=attrs_merge | rules=SUB(from=in &other.0;;to=in other.0.iter())
         @sig
             // inherited from the trait: requires old(self).wf(), other.wf(); ensures final(self).wf(), *final(self) == old(self).merge_spec(other).
             // spelled out over the lists:
